@@ -39,6 +39,7 @@ KERNELS = {
     "_get_spans_for_index_string_field": {"owner": "C08"},
     "apply_spans_index_of_min_indexed": {"owner": "C08"},
     "apply_spans_index_of_max_indexed": {"owner": "C08"},
+    "compare_arrays": {"owner": "C14"},                                        # `return` inside the loop
     "apply_filter_to_index_values": {"owner": "C09"},
     "apply_indices_to_index_values": {"owner": "C09"},
     "map_valid": {"owner": "C04"},
@@ -1037,8 +1038,24 @@ def random_c19(rng, n_cases):
     return out
 
 
-DERIVE = {"C08": derive_c08, "C09": derive_c09, "C04": derive_c04, "C16": derive_c16}
-RANDOM = {"C06": random_c06, "C16": random_c16, "C08": random_c08, "C09": random_c09, "C04": random_c04, "C03": random_c03, "C17": random_c17, "C19": random_c19}
+def derive_c14(case):
+    if case.get("op") != "compare_arrays":
+        return None
+    return gcase("compare_arrays", [arr(bytes.fromhex(case["a"])), arr(bytes.fromhex(case["b"]))], _from="C14")
+
+
+def random_c14(rng, n_cases):
+    out = []
+    for t in range(n_cases):
+        a = [rng.choice([0, 1, 97, 98, 255]) for _ in range(rng.randrange(0, 6))]
+        b = list(a[:rng.randrange(0, len(a) + 1)]) + [rng.choice([0, 97, 98, 255]) for _ in range(rng.randrange(0, 3))] \
+            if rng.random() < 0.6 else [rng.choice([0, 1, 97, 98, 255]) for _ in range(rng.randrange(0, 6))]
+        out.append(gcase("compare_arrays", [arr(a), arr(b)], _from="random"))       # every subscript is below both lengths
+    return out
+
+
+DERIVE = {"C14": derive_c14, "C08": derive_c08, "C09": derive_c09, "C04": derive_c04, "C16": derive_c16}
+RANDOM = {"C14": random_c14, "C06": random_c06, "C16": random_c16, "C08": random_c08, "C09": random_c09, "C04": random_c04, "C03": random_c03, "C17": random_c17, "C19": random_c19}
 
 
 def extra_cases(owner, cases, tier, rng):
